@@ -884,7 +884,7 @@ theorem dataArm_located (v : SVariant ν) (hp : ∀ s, v.kind = .struct s → Po
     split at h
     · split at h
       · simp only [Outcome.err.injEq] at h; subst h
-        exact direct_leaf_other _ _ _ (by intro n d hh; cases hh)
+        exact direct_at _ _
       · split at h
         · cases h
         · exact finishStruct_located s (hp s hk) _ _ E h
@@ -1417,7 +1417,7 @@ theorem dataArm_off (v v' : SVariant ν) (h : OffVariant v v') (nested : Meta) :
       | nameValue p e t sp => simp [Outcome.mapErr, Err.unsupportedFormat, eraseAll_new, Kind.plain]
       | list p items bad ts t sp =>
           cases bad with
-          | some b => simp [Outcome.mapErr, eraseAll, Kind.plain]
+          | some b => simp [Outcome.mapErr, eraseAll, eraseAll_at, Kind.plain]
           | none =>
               simp only
               have hc := coreLoop_off s s' hs items {}
